@@ -460,6 +460,11 @@ func (vc *FnVC) rangeFacts(term string, t types.Type, depth int) []string {
 		}
 	case *types.Pointer, *types.Interface, *types.Map, *types.Chan, *types.Signature:
 		return []string{fmt.Sprintf("(>= %s 0)", term)}
+	case *types.Array:
+		// every element of an array value lies in its type's range
+		if lo, hi, ok := intRange(u.Elem()); ok && !strings.Contains(term, "q$") {
+			return []string{fmt.Sprintf("(forall ((ai$ Int)) (! (and (<= %s (select %s ai$)) (<= (select %s ai$) %s)) :pattern ((select %s ai$))))", smtInt(lo), term, term, smtInt(hi), term)}
+		}
 	}
 	return nil
 }
